@@ -129,7 +129,7 @@ static void one_execution( const Case& c, const std::vector< int >& pre, bool ve
    bool div = false;
    R::Res o{};
    try {
-      o = RI.ev( 0, 0, int( buf.n ), c.cfg.A );
+      o = RI.ev( 0, 0, int( buf.n ), R::Ctx{ c.cfg.A, c.cfg.fam, -1, 1 } );
    }
    catch( const R::Diverge& d ) {
       div = true;
@@ -142,6 +142,7 @@ static void one_execution( const Case& c, const std::vector< int >& pre, bool ve
    ++vf::st.evaluations;
    In in( buf.p, buf.p + buf.n, "src", g_ib, g_il, g_ic );
    check_positions = S.check_positions;
+   monitor_apply_mode = !S.check_scopes;
    verif_c03 = 0;
    Real r;
    fault_armed = 1;
@@ -150,7 +151,7 @@ static void one_execution( const Case& c, const std::vector< int >& pre, bool ve
       fault_armed = 0;
    }
    else {
-      report( "C03", "memory access outside the input buffer (guard page fault)|" + innermost_rule_name(), c, "", false );
+      report( S.hook_prop, "memory access outside the input buffer (guard page fault)|" + innermost_rule_name(), c, "", false );
       L.frames.clear();
       return;
    }
@@ -175,7 +176,7 @@ static void one_execution( const Case& c, const std::vector< int >& pre, bool ve
       // the furthest point reached includes what failing holes left consumed; those residues are only
       // known after the implementation has run (all other answers are memoised, so this is a pure re-run)
       RI.reset( S.ref_fuel );
-      o = RI.ev( 0, 0, int( buf.n ), c.cfg.A );
+      o = RI.ev( 0, 0, int( buf.n ), R::Ctx{ c.cfg.A, c.cfg.fam, -1, 1 } );
    }
    const std::string j = judge( o, r, c.cfg.M, buf.p, VERIF_EOL_KIND );
    if( !j.empty() ) {
@@ -186,10 +187,50 @@ static void one_execution( const Case& c, const std::vector< int >& pre, bool ve
          if( ch >= '0' && ch <= '9' ) ch = '#';
       report( exc ? S.exc_prop : S.result_prop, S.check_positions ? "match result differs from the reference (rule outcome depends on a position counter): " + cls : cls, c, j );
    }
+   // ---- limits leave no residue (C18)
+#ifdef VERIF_DEPTH_INPUT
+   if( in.current_depth() != 0 ) report( "C18", "depth counter not back to its initial value after the run", c, std::string( "outcome " ) + real_name( r.kind ) );
+#endif
+   if( in.end() != buf.p + buf.n ) report( "C18", "input end not restored after the run", c, std::string( "outcome " ) + real_name( r.kind ) );
+   // ---- state / action / control scoping (C13)
+   if( S.check_scopes ) {
+      bool same = T::st_log.size() == RI.st_log.size();
+      for( size_t i = 0; same && i < RI.st_log.size(); ++i ) {
+         const auto &x = T::st_log[ i ], &y = RI.st_log[ i ];
+         same = ( x.what == y.what && x.id == y.id && x.pos == y.pos && x.outer == y.outer );
+      }
+      if( !same ) {
+         std::string w, g;
+         auto sh = []( const T::StEv& e ) { return std::string( e.what == 0 ? "ctor" : e.what == 1 ? "success" : "dtor" ) + "#" + std::to_string( e.id ) + "@" + std::to_string( e.pos ) + "^" + std::to_string( e.outer ) + " "; };
+         for( auto& e : RI.st_log ) w += sh( e );
+         for( auto& e : T::st_log ) g += sh( e );
+         report( "C13", "state constructor/success/destructor log differs from the lexical scoping model", c, "want " + w + "| got " + g );
+      }
+      if( r.kind == Real::OK && o.k == R::OK ) {
+         bool sa = T::sw_acts.size() == RI.sw_acts.size();
+         for( size_t i = 0; sa && i < RI.sw_acts.size(); ++i ) {
+            const auto &x = T::sw_acts[ i ], &y = RI.sw_acts[ i ];
+            sa = ( x.rule == y.rule && x.fam == y.fam && x.b == y.b && x.e == y.e && x.state == y.state );
+         }
+         if( !sa ) {
+            std::string w, g;
+            auto sh = []( const T::SwAct& e ) { return "n" + std::to_string( e.rule ) + "/fam" + std::to_string( e.fam ) + "[" + std::to_string( e.b ) + "," + std::to_string( e.e ) + ")state" + std::to_string( e.state ) + " "; };
+            for( auto& e : RI.sw_acts ) w += sh( e );
+            for( auto& e : T::sw_acts ) g += sh( e );
+            report( "C13", "actions fired with the wrong action family or state instance", c, "want " + w + "| got " + g );
+         }
+      }
+      if( o.k == R::OK || o.k == R::FAIL ) {
+         bool sc = T::ctl_log.size() == RI.ctl_log.size();
+         for( size_t i = 0; sc && i < RI.ctl_log.size(); ++i ) sc = ( T::ctl_log[ i ] == RI.ctl_log[ i ] );
+         if( !sc ) report( "C13", "control in effect for a rule differs from the lexical scoping model", c );
+      }
+      if( !RI.st_log.empty() ) vf::count( "executions_with_state_scopes" );
+   }
    // ---- online monitors
    if( L.c02 ) report( "C02", L.c02_msg, c, "", false );
    if( L.c03 ) report( "C03", L.c03_msg, c, "", false );
-   if( verif_c03 ) report( "C03", L.c03_hook.empty() ? std::string( verif_c03_what ) + "|top level" : L.c03_hook, c, "", false );
+   if( verif_c03 ) report( S.hook_prop, L.c03_hook.empty() ? std::string( verif_c03_what ) + "|top level" : L.c03_hook, c, "", false );
    if( L.c04 ) report( "C04", L.c04_msg, c, "", false );
    if( L.c06 ) report( "C06", strip_ns( L.c06_msg ) + ( ( g_ib | ( g_il - 1 ) | ( g_ic - 1 ) ) ? "|non-default initial counters" : "|default counters" ), c, L.c06_info );
    // ---- surviving action log (C04)
